@@ -145,49 +145,43 @@ func (it *Iterator) Seek(target []byte) bool {
 		}
 	}
 
+	// left is now the first restart point whose key is >= target (or the last
+	// restart point). Unless that key equals the target, the first entry >= target
+	// may lie inside the preceding restart interval, so the scan starts there.
+	if left > 0 {
+		it.currentPos = it.reader.restartPoints[left]
+		key, _, ok := it.decodeCurrent()
+		if !ok {
+			return false
+		}
+		if bytes.Compare(key, target) > 0 {
+			left--
+		}
+	}
+
 	// Position at the found restart point
 	it.restartIdx = left
 	it.currentPos = it.reader.restartPoints[left]
 	it.initialized = true
 
-	// First check the current position
-	key, val, ok := it.decodeCurrent()
-	if !ok {
-		return false
-	}
-
-	// If the key at this position is already >= target, we're done
-	if bytes.Compare(key, target) >= 0 {
-		it.currentKey = key
-		it.currentVal = val
-		return true
-	}
-
-	// Otherwise, scan forward until we find the first key >= target
+	// Scan forward until we find the first key >= target; decodeNext leaves
+	// currentPos behind the entry it returns, which is where Next continues
 	for {
-		savePos := it.currentPos
-		key, val, ok = it.decodeNext()
+		key, val, ok := it.decodeNext()
 		if !ok {
-			// Restore position to the last valid entry
-			it.currentPos = savePos
-			key, val, ok = it.decodeCurrent()
-			if ok {
-				it.currentKey = key
-				it.currentVal = val
-				return true
-			}
+			// Every entry of this block is smaller than the target
+			it.currentKey = nil
+			it.currentVal = nil
 			return false
 		}
 
-		if bytes.Compare(key, target) >= 0 {
-			it.currentKey = key
-			it.currentVal = val
-			return true
-		}
-
-		// Update current key/value for the next iteration
+		// Update current key/value (the next delta-encoded key builds on it)
 		it.currentKey = key
 		it.currentVal = val
+
+		if bytes.Compare(key, target) >= 0 {
+			return true
+		}
 	}
 }
 
